@@ -147,7 +147,7 @@ def make_queries(o, rnd, heavy):
     return q
 
 
-def build_lens(rnd, which):
+def build_lens(rnd, which, unsorted=False):
     from optiland.coatings import SimpleCoating
     from optiland.rays import PolarizationState
     if which == 8:
@@ -174,10 +174,13 @@ def build_lens(rnd, which):
         o, m = G.random_lens(rnd, kinds=("standard", "standard", "even_asphere"), mirrors=rnd.random() < 0.3,
                              coatings=rnd.random() < 0.5, apertures=rnd.random() < 0.5)
         meta = {"lens": "random %s" % m["kinds"], "iterative": "even_asphere" in m["kinds"]}
-    if rnd.random() < 0.5:      # vignetting factors on a new outer field
+    if (rnd.random() < 0.5) or unsorted:      # vignetting factors on a new outer field
         mf = o.fields.max_y_field
         # half of them inside the existing fields: the field list is then not in ascending order
+        # (`unsorted`: one session in five, whatever the draws)
         fy = rnd.choice([1.0, 1.0, 0.5, 0.85])
+        if unsorted and fy == 1.0:
+            fy = 0.5
         o.add_field(y=mf * fy if mf else fy, vx=rnd.uniform(0.05, 0.3), vy=rnd.uniform(0.05, 0.3))
         meta["vignetting"] = True
         meta["fields_unsorted"] = fy < 1.0
@@ -205,11 +208,17 @@ def _session(args):
     tid, seed, length, heavy = args
     rnd = random.Random(seed)
     try:
-        o, meta = build_lens(rnd, tid % 9)
+        o, meta = build_lens(rnd, tid % 9, unsorted=tid % 5 == 2)
     except Exception as ex:
         return {"tid": tid, "skip": "build: %s" % type(ex).__name__}
     events = [{"op": "new"}]
+    # make_queries constructs the session-long analysis objects, which trace the lens: that
+    # construction is itself a query (frame clause), not something that happens before observation starts
+    p_before = presc_digest(o)
     queries = make_queries(o, rnd, heavy)
+    events.append({"op": "query", "key": "construct session-long SpotDiagram and Wavefront objects", "exc": "",
+                   "p0": p_before, "a0": digest([]), "res": digest("constructed"), "a1": digest([]),
+                   "p1": presc_digest(o)})
     edits = []      # stack of (surface, old_radius)
     log = []
     for step in range(length):
